@@ -72,6 +72,8 @@ def report_cases(draw):
         "simplify": True,
         "minimize": draw(st.sampled_from(["flops", "size", "write", "combo"])),
         "slicing": draw(st.booleans()),
+        # further calls on the same RandomGreedyOptimizer object
+        "again": draw(st.lists(st.sampled_from(["search", "call"]), max_size=3)),
     }
 
 
@@ -247,6 +249,15 @@ def run_report(spec):
                 simplify=spec["simplify"], parallel=False,
             )
             tree = opt.search(inputs, output, sizes)
+            # the same optimizer object asked again about the same contraction
+            # (it keeps the best over all its calls): what it reports must be
+            # the cost of what it returns NOW
+            for again in spec.get("again", []):
+                if again == "search":
+                    tree = opt.search(inputs, output, sizes)
+                else:
+                    path = opt(inputs, output, sizes)
+                    tree = ctg.ContractionTree.from_path(inputs, output, sizes, path=path)
             return opt.best_flops, tree
 
         ok, r = guarded(go)
